@@ -10,15 +10,15 @@ BRIDGE_MODULES = ["HvsrVerif.Bridge.C03"]
 
 
 def gen_case(rng, i):
-    fam = ["trad", "saz", "rot", "trad"][i % 4]
-    nrec = int(rng.integers(1, 8))
+    fam = ["trad", "saz", "rot", "trad", "saz", "rot", "trad", "az"][i % 8]
+    nrec = int(rng.integers(1, 8)) if fam != "az" else int(rng.integers(2, 4))    # the azimuthal path always ends at n = 2**15: few, short records
     ndt = int(rng.integers(1, 4))
     dts = [float(x) for x in rng.choice(pg.DTS, ndt, replace=False)]
     arrangement = [dts[int(rng.integers(0, ndt))] for _ in range(nrec)]
     # sensors of one list may be deployed at different angles (read(..., degrees_from_north=[...])): the single-azimuth and
     # RotDpp families must resolve the orientation per record
-    mixed_deg = fam in ("saz", "rot") and rng.random() < 0.6
-    recs = [pg.gen_record(rng, n=int(rng.integers(16, 90)), dt=d, scale=float(10.0 ** rng.integers(-2, 3)),
+    mixed_deg = fam in ("saz", "rot", "az") and rng.random() < 0.6
+    recs = [pg.gen_record(rng, n=int(rng.integers(16, 90 if fam != "az" else 40)), dt=d, scale=float(10.0 ** rng.integers(-2, 3)),
                           deg=(float(rng.choice([0.0, 10.0, 33.5, 90.0, 180.0, 271.25, 350.0])) if mixed_deg else 0.0)) for d in arrangement]
     max_n = max(len(r["vt"]) for r in recs)
     fft = dict(n=None)
@@ -44,6 +44,8 @@ def gen_case(rng, i):
         case["method"] = pg.COMBINE_NAMES[int(rng.integers(0, len(pg.COMBINE_NAMES)))]
     elif fam == "saz":
         case["azimuth"] = float(rng.uniform(0, 180))
+    elif fam == "az":
+        case["azimuths"] = [0.0, 75.0]
     else:
         case["pct"] = float(rng.choice([0, 50, 100])); case["azimuths"] = [0.0, 60.0, 120.0]
     return case
@@ -57,7 +59,12 @@ def gen_nyquist_case(rng, i):
     arrangement = [d_big, d_small, d_small, d_big][: int(rng.integers(2, 5))]
     recs = [pg.gen_record(rng, n=int(rng.integers(40, 90)), dt=d, scale=1.0, deg=float(rng.choice([0.0, 0.0, 25.0, 300.0]))) for d in arrangement]
     fny = 1 / (2 * d_big)
-    fcs = sorted([float(fny * rng.uniform(0.3, 0.9)), float(fny * rng.uniform(0.5, 0.95)), float(fny * rng.uniform(1.0005, 1.08))])
+    # how far above the Nyquist frequency: from the next representable number to a few per cent (a tolerance in the guard is a defect:
+    # "above" is refused, "equal" is accepted)
+    k = i % 6
+    over = [float(np.nextafter(fny, np.inf)), fny * (1 + 1e-9), fny * (1 + 3e-6), fny * float(rng.uniform(1.0005, 1.08)), fny * float(rng.uniform(1.0005, 1.08)),
+            fny * float(rng.uniform(1.0005, 1.08))][k]
+    fcs = sorted([float(fny * rng.uniform(0.3, 0.9)), float(fny * rng.uniform(0.5, 0.95)), float(over)])
     if i % 2 == 1:   # the offending frequency is not the last one (descending or shuffled user array)
         fcs = [fcs[j] for j in ([2, 1, 0] if i % 4 == 1 else [0, 2, 1])]
     sm = dict(operator="konno_and_ohmachi", bandwidth=float(rng.choice([8.0, 10.0, 12.0])), center_frequencies_in_hz=fcs)
@@ -93,7 +100,7 @@ def run(ctx):
     rng = np.random.default_rng(ctx.seed)
     n = ctx.budget(70, 900)
     cases = [c for c in (gen_case(rng, i) for i in range(n)) if c is not None]
-    cases += [gen_nyquist_case(rng, i) for i in range(ctx.budget(12, 120))]
+    cases += [gen_nyquist_case(rng, i) for i in range(ctx.budget(18, 120))]
     outs = run_driver([pg.model_line(c) for c in cases])
     for c, o in zip(cases, outs):
         im = pg.run_impl(c)
@@ -121,6 +128,16 @@ def run(ctx):
         kept_options = expected_kept(c)
         if isinstance(res, str):
             # refused: only legitimate when a centre frequency exceeds the Nyquist frequency of a kept record, or a smoothing window is empty
+            continue
+        if c["family"] == "az":
+            # one HvsrTraditional per azimuth, each with exactly one curve per retained recording
+            for hz in res:
+                if not any(len(k) == len(hz) for k in kept_options):
+                    ctx.violation("keeping-policy-retains-exactly", dict(case=c, n_curves=len(hz), expected_one_of=kept_options), seam="hvsrpy.process (azimuthal)")
+                    break
+                if not (np.all(np.isfinite(hz)) and np.all(hz >= 0)):
+                    ctx.violation("finite-non-negative-amplitudes", dict(case=c), seam="result.amplitude")
+                    break
             continue
         kept = next((k for k in kept_options if len(k) == len(res)), None)
         if kept is None:
